@@ -114,10 +114,12 @@ def make_blocks(it, P: Program, universe) -> Dict[str, AObj]:
         c = m.classes[cls]
         S = lambda t: f"{t}:{label}"
         if cls == "Entry":
-            f = it.construct(m.classes["Field"], [], {"key": "title", "value": S("title"), "start_line": 1})
-            o = it.construct(c, [], {"entry_type": S("type"), "key": key, "fields": AList([f]), "start_line": S("line"), "raw": S("raw")})
+            # the first same-key entry has no fields at all, the others differ in their fields
+            fl = [] if label.endswith("a") else [it.construct(m.classes["Field"], [], {"key": "title", "value": S("title"), "start_line": 1})]
+            o = it.construct(c, [], {"entry_type": S("type"), "key": key, "fields": AList(fl), "start_line": S("line"), "raw": S("raw")})
         elif cls == "String":
-            o = it.construct(c, [], {"key": key, "value": S("value"), "start_line": S("line"), "raw": S("raw")})
+            # same-key strings carry the same value (only line and raw differ): duplicates are decided by key, not by value
+            o = it.construct(c, [], {"key": key, "value": f"value-of-{key}", "start_line": S("line"), "raw": S("raw")})
         elif cls == "Preamble":
             o = it.construct(c, [], {"value": S("value"), "start_line": S("line"), "raw": S("raw")})
         elif cls in ("ExplicitComment", "ImplicitComment"):
@@ -281,6 +283,10 @@ def operations(ref: RefLib, universe, thorough=False):
             ops.append(("add", (a, b), True, True))
     if len(free) >= 2:
         ops.append(("add", (free[0], free[-1]), True, True))
+    # adding a block that is already held (same object again): it must be wrapped like any other same-key block
+    held_kv = [i[1] for i in ref.items if i[0] == "blk" and universe[i[1]][0] in ("Entry", "String")]
+    for l in held_kv[:2]:
+        ops.append(("add", (l,), None, False))
     for item in ref.items:
         ops.append(("remove", (item,), False))
         ops.append(("remove", (item,), True))
